@@ -330,10 +330,32 @@ v("C13", "n2-critical-section-in-closure", "benign", "middleware/limiter/limiter
   find2="\t\t// Calculate when it resets in seconds\n\t\tresetInSec := e.exp - ts\n\n\t\t// Set how many hits we have left\n\t\tremaining := maxRequests - e.currHits\n\n\t\t// Update storage\n\t\tmanager.set(key, e, cfg.Expiration)\n\n\t\t// Unlock entry\n\t\tmux.Unlock()\n\n\t\t// Check if hits exceed the max",
   replace2="\t\tresetInSec = e.exp - ts\n\t\tremaining = maxRequests - e.currHits\n\t\tmanager.set(key, e, cfg.Expiration)\n\t\t}()\n\n\t\t// Check if hits exceed the max")
 
+# ---------------------------------------------------------------- rules added after the second round of seeded changes
+v("C14", "b10-scratch-buffer-to-storage", "break", "middleware/cache/manager.go",
+  "\tpool    sync.Pool\n\tmemory  *memory.Storage\n\tstorage fiber.Storage\n}", "\tpool    sync.Pool\n\tmemory  *memory.Storage\n\tstorage fiber.Storage\n\tbuf     []byte\n}",
+  "fresh-bytes", "one scratch buffer is handed to every Storage.Set",
+  file2="middleware/cache/manager.go", find2="\t\tif raw, err := it.MarshalMsg(nil); err == nil {\n", replace2="\t\tif raw, err := it.MarshalMsg(m.buf[:0]); err == nil {\n\t\t\tm.buf = raw\n")
+v("C14", "n3-marshal-into-named-local", "benign", "middleware/cache/manager.go", "\t\tif raw, err := it.MarshalMsg(nil); err == nil {\n\t\t\t_ = m.storage.Set(key, raw, exp)", "\t\tencoded, err := it.MarshalMsg(nil)\n\t\tif err == nil {\n\t\t\t_ = m.storage.Set(key, encoded, exp)", why="same fresh allocation, different local name and statement form")
+v("C15", "b8-id-view-of-header", "break", "middleware/session/store.go", "\t\tid = string(c.Request().Header.Peek(s.sessionName))", "\t\tid = c.Get(s.sessionName)", "private-copy", "the id aliases the request header buffer")
+v("C15", "n3-id-explicit-copy", "benign", "middleware/session/store.go", "\t\tid = string(c.Request().Header.Peek(s.sessionName))", "\t\tid = utils.CopyString(c.Get(s.sessionName))", why="explicit copy instead of the conversion")
+v("C16", "b9-store-session-delete-not-saved", "break", "middleware/csrf/session_manager.go", "\t\tstoreSess.Delete(sessionKey)\n\t\tif err := storeSess.Save(); err != nil {\n\t\t\tlog.Warn(\"csrf: failed to save session: \", err)\n\t\t}\n", "\t\tstoreSess.Delete(sessionKey)\n", "Delete-then-Save", "a deleted token stays in the store")
+v("C16", "n2-save-error-named", "benign", "middleware/csrf/session_manager.go", "\t\tstoreSess.Delete(sessionKey)\n\t\tif err := storeSess.Save(); err != nil {\n\t\t\tlog.Warn(\"csrf: failed to save session: \", err)\n\t\t}\n", "\t\tstoreSess.Delete(sessionKey)\n\t\tsaveErr := storeSess.Save()\n\t\tif saveErr != nil {\n\t\t\tlog.Warn(\"csrf: failed to save session: \", saveErr)\n\t\t}\n", why="same call, error in a named local")
+v("C17", "b8-default-next-idempotent-methods", "break", "middleware/idempotency/config.go", "return fiber.IsMethodSafe(c.Method())", "return fiber.IsMethodIdempotent(c.Method())", "safe-methods-only", "PUT/DELETE bypass the middleware")
+v("C17", "n2-default-next-if-form", "benign", "middleware/idempotency/config.go", "\t\treturn fiber.IsMethodSafe(c.Method())", "\t\tif fiber.IsMethodSafe(c.Method()) {\n\t\t\treturn true\n\t\t}\n\t\treturn false", why="same predicate written with an if")
+v("C19", "b10-normalize-drops-port", "break", "middleware/cors/utils.go", "return true, strings.ToLower(parsedOrigin.Scheme + \"://\" + parsedOrigin.Host)", "return true, strings.ToLower(parsedOrigin.Scheme + \"://\" + strings.TrimSuffix(parsedOrigin.Host, \":443\"))", "scheme-and-host-verbatim", "the port is cut off whatever the scheme")
+v("C19", "n5-normalize-host-local", "benign", "middleware/cors/utils.go", "\treturn true, strings.ToLower(parsedOrigin.Scheme + \"://\" + parsedOrigin.Host)", "\thost := parsedOrigin.Host\n\treturn true, strings.ToLower(parsedOrigin.Scheme + \"://\" + host)", why="host in a local variable")
+v("C20", "b7-names-case-folded", "break", "middleware/encryptcookie/utils.go", "\t\tif key == k {", "\t\tif strings.EqualFold(key, k) {", "exact-name-match", "names differing in case are treated as one", 
+  file2="middleware/encryptcookie/utils.go", find2="import (\n", replace2="import (\n\t\"strings\"\n")
+v("C20", "n2-names-slices-contains", "benign", "middleware/encryptcookie/utils.go", "\tfor _, k := range except {\n\t\tif key == k {\n\t\t\treturn true\n\t\t}\n\t}\n\n\treturn false", "\treturn slices.Contains(except, key)", why="slices.Contains performs the same ordered == comparison",
+  file2="middleware/encryptcookie/utils.go", find2="import (\n", replace2="import (\n\t\"slices\"\n")
+
 os.makedirs('/verif/selftest', exist_ok=True)
 for prop, vs in V.items():
     p = f'/verif/selftest/{prop.lower()}.json'
     if prop == 'C15':
-        continue
+        # c15.json is partly hand-maintained: add / replace the generated entries, keep the others
+        old = json.load(open(p))
+        gen = {x['id'] for x in vs}
+        vs = [x for x in old if x['id'] not in gen] + vs
     json.dump(vs, open(p, 'w'), indent=1, ensure_ascii=False)
 print({k: len(x) for k, x in V.items()})
